@@ -44,9 +44,9 @@ Definition init (k : Z) : list op :=
   end.
 
 (* a case is (scene number, history); the answer is one digest over the per-step digests *)
-Definition run_digest_v (v : bool) (c : Z * list op) : list Z :=
+Definition run_digest_v (v : cfg) (c : Z * list op) : list Z :=
   [to_Z (h63_list 0%uint63 (trace (empty_state_v v) (init (fst c) ++ snd c)))].
-Definition run_digest := run_digest_v false.
+Definition run_digest := run_digest_v cfg0.
 
 (* detail for diagnosing a mismatch: per step, outcome and printed state *)
 Fixpoint trace_full (s : state) (h : list op) : list (list Z) :=
@@ -54,8 +54,8 @@ Fixpoint trace_full (s : state) (h : list op) : list (list Z) :=
   | [] => []
   | o :: r => let '(s1, a) := step s o in (out_canon a ++ (-7) :: print_state s1) :: trace_full s1 r
   end.
-Definition run_full_v (v : bool) (c : Z * list op) : list (list Z) := trace_full (empty_state_v v) (init (fst c) ++ snd c).
-Definition run_full := run_full_v false.
+Definition run_full_v (v : cfg) (c : Z * list op) : list (list Z) := trace_full (empty_state_v v) (init (fst c) ++ snd c).
+Definition run_full := run_full_v cfg0.
 
 (* Python list primitives, compared with real Python lists by the harness *)
 Definition pylist_case (c : Z * (list Z * (Z * Z))) : list Z :=
